@@ -1,5 +1,8 @@
-(* C15 — no useless gates; data movement is free.  (Theorems about [build] are added as
-   Builder/BuildProofs.v lands; pinned here: the folding rules that make data movement free.) *)
+(* C15 -- no useless gates; data movement is free.
+   Builder / build layer: machine-checked for every builder reachable by any request sequence
+   and every choice of panic wires / outputs (proofs: Builder/StructProofs.v over the models
+   Builder/Builder.v and Builder/Build.v, which are tied gate for gate to src/circuit.rs on
+   every run).  Program level (which programs are "data movement") stays differential. *)
 From GV Require Import Base.Util Base.NMap Builder.Builder Builder.BuilderSem Builder.BuilderSpec Builder.BuilderProofs.
 Open Scope N_scope.
 
@@ -26,3 +29,226 @@ Proof.
   destruct (x =? 0) eqn:E; [apply N.eqb_eq in E; now subst|reflexivity].
 Qed.
 Print Assumptions C15_xor_zero_is_free.
+
+(* ====================================================================================
+   Builder / build layer, for EVERY builder any request sequence can produce
+   ([reachable]: new_builder, then any list of xor/and/or/eq/not/mux requests whose raw
+   operands are constants or inputs and whose other operands are earlier results), with
+   de-duplication on or off, and EVERY choice of panic wires [pw] and outputs [outs] among
+   the valid wires.  Final numbering: wires 0..n-1 are the inputs (n = num_inputs c), gate
+   k drives wire n+k; gate 0 = Xor(0,0) is the constant false (wire n), gate 1 = Not(n) the
+   constant true (wire n+1).
+   ==================================================================================== *)
+From GV Require Import Circuit.Ssa Builder.Build Builder.BuildProofs Builder.Requests
+  Builder.StructSpec Builder.StructProofs.
+
+(* build never fails / never runs out of fuel on such a builder *)
+Theorem C15_build_total : forall b hs pw outs,
+  reachable b hs -> valids b pw -> valids b outs -> exists c, build b pw outs = Ok c.
+Proof. exact build_total. Qed.
+Print Assumptions C15_build_total.
+
+(* the exceptions, exactly: the first two gates are the constant gates, emitted always *)
+Theorem C15_const_gates : forall b hs pw outs c,
+  reachable b hs -> valids b pw -> valids b outs -> build b pw outs = Ok c ->
+  nthN (gates c) 0 = Some (GXor 0 0) /\ nthN (gates c) 1 = Some (GNot (num_inputs c)).
+Proof. exact build_const_gates. Qed.
+Print Assumptions C15_const_gates.
+
+(* 1. every other gate contributes to an output (is an output, or an operand of a gate that
+      contributes): no dead gate survives build *)
+Theorem C15_all_used : forall b hs pw outs c,
+  reachable b hs -> valids b pw -> valids b outs -> build b pw outs = Ok c ->
+  forall k, 2 <= k < lenN (gates c) -> reaches c (num_inputs c + k).
+Proof. exact build_all_used. Qed.
+Print Assumptions C15_all_used.
+
+(* 2. no XOR / AND / NOT gate other than those two has a constant wire as operand *)
+Theorem C15_no_constant_operand : forall b hs pw outs c,
+  reachable b hs -> valids b pw -> valids b outs -> build b pw outs = Ok c ->
+  forall k g w, 2 <= k -> nthN (gates c) k = Some g -> In w (g_ops g) ->
+    w <> num_inputs c /\ w <> num_inputs c + 1.
+Proof. exact build_no_constant_operand. Qed.
+Print Assumptions C15_no_constant_operand.
+
+(* 4. no AND has the same wire twice (dedup on or off); with dedup no XOR either (gate 0,
+      Xor(0,0), is the exception; without dedup Xor(q,q) can be stored, see
+      C15_nodedup_xor_self_example) *)
+Theorem C15_no_self_operand : forall b hs pw outs c,
+  reachable b hs -> valids b pw -> valids b outs -> build b pw outs = Ok c ->
+  (forall k x y, nthN (gates c) k = Some (GAnd x y) -> x <> y) /\
+  (b_dedup b = true -> forall k x y, 2 <= k -> nthN (gates c) k = Some (GXor x y) -> x <> y).
+Proof. exact build_no_self_operand. Qed.
+Print Assumptions C15_no_self_operand.
+
+(* 3. with dedup no two AND gates have the same unordered operand pair *)
+Theorem C15_and_unique : forall b hs pw outs c,
+  reachable b hs -> valids b pw -> valids b outs -> build b pw outs = Ok c ->
+  b_dedup b = true ->
+  forall k1 k2 x y x' y',
+    nthN (gates c) k1 = Some (GAnd x y) -> nthN (gates c) k2 = Some (GAnd x' y') ->
+    same_pair x y x' y' -> k1 = k2.
+Proof. exact build_and_unique. Qed.
+Print Assumptions C15_and_unique.
+
+(* the same facts about the gate store itself (before pruning): what is never stored *)
+Theorem C15_store_gate_shape : forall b hs,
+  reachable b hs ->
+  forall i g, nthN (rev (b_gates_rev b)) i = Some g ->
+    match g with
+    | BAnd x y => 2 <= x /\ 2 <= y /\ x <> y
+    | BXor x y => x <> 0 /\ y <> 0 /\ (x = y -> b_dedup b = false /\ 2 <= x)
+    end.
+Proof. exact store_gate_shape. Qed.
+Print Assumptions C15_store_gate_shape.
+
+Theorem C15_store_and_unique : forall b hs,
+  reachable b hs -> b_dedup b = true ->
+  forall i j x y x' y',
+    nthN (rev (b_gates_rev b)) i = Some (BAnd x y) -> nthN (rev (b_gates_rev b)) j = Some (BAnd x' y') ->
+    same_pair x y x' y' -> i = j.
+Proof. exact store_and_unique. Qed.
+Print Assumptions C15_store_and_unique.
+
+(* ---- counting AND gates ("data movement costs zero AND gates", builder level) ---- *)
+
+(* 6a. pruning never adds an AND, and one request adds at most [req_cost] of them to the
+   store: xor 1 (the (a&b)^(a&c) -> a&(b^c) rewrite pushes an AND; tight, see
+   C15_xor_can_add_and_example), and 1, eq 1, not 0, or 3, mux 3 *)
+Theorem C15_and_count_le : forall dedup inputs rs b hs pw outs c,
+  Forall (req_ok (2 + sumN inputs)) rs ->
+  run_reqs (new_builder dedup inputs) [] rs = Ok (b, hs) ->
+  valids b pw -> valids b outs -> build b pw outs = Ok c ->
+  and_gates c <= N.of_nat (reqs_cost rs).
+Proof. exact build_and_count_le. Qed.
+Print Assumptions C15_and_count_le.
+
+(* 6b. a request sequence made only of XOR / NOT / EQ requests, ANDs and ORs with a
+   constant operand, and MUXes with a constant selector or twice the same data wire
+   ([and_free], evaluated on the operands as they resolve at run time) builds a circuit with
+   ZERO AND gates, whatever the outputs *)
+Theorem C15_and_free_requests_zero_and : forall dedup inputs rs b hs pw outs c,
+  Forall (req_ok (2 + sumN inputs)) rs ->
+  and_free (new_builder dedup inputs) [] rs ->
+  run_reqs (new_builder dedup inputs) [] rs = Ok (b, hs) ->
+  valids b pw -> valids b outs -> build b pw outs = Ok c ->
+  and_gates c = 0.
+Proof. exact and_free_requests_zero_and. Qed.
+Print Assumptions C15_and_free_requests_zero_and.
+
+(* ---- folding at request level ---- *)
+
+(* 5a. requests whose raw operands are all constants (the others being earlier results of
+   such requests) never create a gate and only ever return constants, from ANY builder *)
+Theorem C15_const_requests_no_gate : forall rs b hs b' hs',
+  Forall (fun v => v <= 1) hs -> Forall req_raw_const rs -> run_reqs b hs rs = Ok (b', hs') ->
+  b' = b /\ Forall (fun v => v <= 1) hs'.
+Proof. exact const_requests_no_gate. Qed.
+Print Assumptions C15_const_requests_no_gate.
+
+(* 5c. the folds, for every builder state and every wire *)
+Theorem C15_folding_facts : forall b x s,
+  push_xor_top b x x = Ok (0, b) /\ push_and_top b x x = Ok (x, b) /\
+  push_xor_top b 0 x = Ok (x, b) /\ push_xor_top b x 0 = Ok (x, b) /\
+  push_and_top b 0 x = Ok (0, b) /\ push_and_top b x 0 = Ok (0, b) /\
+  push_and_top b 1 x = Ok (x, b) /\ push_and_top b x 1 = Ok (x, b) /\
+  push_or b x x = Ok (x, b) /\ push_eq b x x = Ok (1, b) /\ push_mux b s x x = Ok (x, b).
+Proof. exact folding_facts. Qed.
+Print Assumptions C15_folding_facts.
+
+(* ---- non-vacuity and sharpness: concrete request lists (each also run against the real
+   CircuitBuilder by tools/c15.py, job ids d0..d6) ---- *)
+
+(* hypotheses satisfiable; a dead gate (And(3,4)) is stored and pruned, the rest renumbered *)
+Theorem C15_pruning_example :
+  let rs := [RAnd (Raw 2) (Raw 3); RXor (Hnd 0) (Raw 4); RAnd (Raw 3) (Raw 4); RNot (Hnd 1)] in
+  Forall (req_ok (2 + sumN [3])) rs /\
+  c15_run true [3] rs [Hnd 3] =
+    Some ([BAnd 2 3; BXor 5 4; BAnd 3 4; BXor 6 1],
+          [GXor 0 0; GNot 3; GAnd 0 1; GXor 5 2; GNot 6], [7], 1).
+Proof. split; [repeat constructor|vm_compute; reflexivity]. Qed.
+Print Assumptions C15_pruning_example.
+
+(* dedup off: two ANDs with the same operand pair survive (C15_and_unique needs dedup) *)
+Theorem C15_nodedup_and_dup_example :
+  c15_run false [2] [RAnd (Raw 2) (Raw 3); RAnd (Raw 3) (Raw 2)] [Hnd 0; Hnd 1] =
+    Some ([BAnd 2 3; BAnd 3 2], [GXor 0 0; GNot 2; GAnd 0 1; GAnd 1 0], [4; 5], 2).
+Proof. vm_compute. reflexivity. Qed.
+Print Assumptions C15_nodedup_and_dup_example.
+
+(* dedup off: the (a&b)^(a&c) rewrite applied to two copies of the same AND stores
+   Xor(q,q) and an AND on it (the XOR clause of C15_no_self_operand needs dedup) *)
+Theorem C15_nodedup_xor_self_example :
+  c15_run false [2] [RAnd (Raw 2) (Raw 3); RAnd (Raw 2) (Raw 3); RXor (Hnd 0) (Hnd 1)] [Hnd 2] =
+    Some ([BAnd 2 3; BAnd 2 3; BXor 3 3; BAnd 2 6], [GXor 0 0; GNot 2; GXor 1 1; GAnd 0 4], [5], 1).
+Proof. vm_compute. reflexivity. Qed.
+Print Assumptions C15_nodedup_xor_self_example.
+
+(* dedup on: XOR gates are NOT unique -- the same rewrite pushes a second Xor(3,4) although
+   one is cached (only ANDs are claimed unique) *)
+Theorem C15_dedup_xor_dup_example :
+  c15_run true [3] [RXor (Raw 3) (Raw 4); RAnd (Raw 2) (Raw 3); RAnd (Raw 2) (Raw 4); RXor (Hnd 1) (Hnd 2)]
+    [Hnd 0; Hnd 3] =
+    Some ([BXor 3 4; BAnd 2 3; BAnd 2 4; BXor 3 4; BAnd 2 8],
+          [GXor 0 0; GNot 3; GXor 1 2; GXor 1 2; GAnd 0 6], [5; 7], 1).
+Proof. vm_compute. reflexivity. Qed.
+Print Assumptions C15_dedup_xor_dup_example.
+
+(* the bound "xor <= 1 AND" is tight: an XOR request adds an AND gate that survives *)
+Theorem C15_xor_can_add_and_example :
+  let rs := [RAnd (Raw 2) (Raw 3); RAnd (Raw 2) (Raw 4); RXor (Hnd 0) (Hnd 1)] in
+  reqs_cost rs = 3%nat /\
+  c15_run true [3] rs [Hnd 0; Hnd 1; Hnd 2] =
+    Some ([BAnd 2 3; BAnd 2 4; BXor 3 4; BAnd 2 7],
+          [GXor 0 0; GNot 3; GAnd 0 1; GAnd 0 2; GXor 1 2; GAnd 0 7], [5; 6; 8], 3).
+Proof. split; [reflexivity|vm_compute; reflexivity]. Qed.
+Print Assumptions C15_xor_can_add_and_example.
+
+(* an AND-free sequence with muxes, an AND and an OR on constants: zero AND gates *)
+Theorem C15_and_free_example :
+  let rs := [RXor (Raw 2) (Raw 3); RNot (Hnd 0); RMux (Raw 1) (Hnd 0) (Hnd 1); RAnd (Raw 1) (Hnd 2);
+             ROr (Hnd 0) (Raw 0); RMux (Raw 0) (Raw 2) (Hnd 1)] in
+  Forall (req_ok (2 + sumN [2])) rs /\ and_free (new_builder true [2]) [] rs /\
+  c15_run true [2] rs [Hnd 1; Hnd 2; Hnd 3; Hnd 4; Hnd 5] =
+    Some ([BXor 2 3; BXor 4 1; BXor 2 5], [GXor 0 0; GNot 2; GXor 0 1; GNot 4], [5; 4; 4; 4; 5], 0).
+Proof.
+  split; [repeat constructor|]. split; [vm_compute; tauto|vm_compute; reflexivity].
+Qed.
+Print Assumptions C15_and_free_example.
+
+(* 5b. double negation: for every reachable builder and every valid wire x, negating the
+   result of push_not(x) returns x itself and leaves the builder (gate store, caches,
+   negated map) unchanged -- the [negated] map is symmetric and records every NOT gate *)
+Theorem C15_double_negation_is_free : forall b hs x r b',
+  reachable b hs -> valid b x -> push_not b x = Ok (r, b') -> push_not b' r = Ok (x, b').
+Proof. exact push_not_involutive. Qed.
+Print Assumptions C15_double_negation_is_free.
+
+Theorem C15_double_negation_example :
+  let rs := [RNot (Raw 2); RNot (Hnd 0); RNot (Hnd 1); RXor (Raw 2) (Raw 3); RNot (Hnd 3); RNot (Hnd 4)] in
+  match run_reqs (new_builder true [2]) [] rs with
+  | Ok (b, hs) => hs = [4; 2; 4; 5; 6; 5] /\ rev (b_gates_rev b) = [BXor 2 1; BXor 2 3; BXor 5 1]
+  | _ => False
+  end.
+Proof. vm_compute. split; reflexivity. Qed.
+Print Assumptions C15_double_negation_example.
+
+(* headline, in the setting of C04_requests_then_build: ANY request sequence, dedup on or
+   off, outputs chosen among constants, inputs and results, the panic record of
+   PanicResult::ok(): build succeeds and its circuit has no dead gate, no constant operand,
+   no AND on the same wire twice, (dedup) no duplicate AND, and at most reqs_cost ANDs *)
+Theorem C15_requests_build_structure : forall dedup inputs rs outs b hs ows,
+  Forall (req_ok (2 + sumN inputs)) rs -> Forall (opnd_ok (2 + sumN inputs)) outs ->
+  run_reqs (new_builder dedup inputs) [] rs = Ok (b, hs) ->
+  mapM (resolve hs) outs = Some ows ->
+  exists c, build b panic_ok_wires ows = Ok c /\
+    (forall k, 2 <= k < lenN (gates c) -> reaches c (num_inputs c + k)) /\
+    (forall k g w, 2 <= k -> nthN (gates c) k = Some g -> In w (g_ops g) ->
+       w <> num_inputs c /\ w <> num_inputs c + 1) /\
+    (forall k x y, nthN (gates c) k = Some (GAnd x y) -> x <> y) /\
+    (dedup = true -> forall k1 k2 x y x' y',
+       nthN (gates c) k1 = Some (GAnd x y) -> nthN (gates c) k2 = Some (GAnd x' y') ->
+       same_pair x y x' y' -> k1 = k2) /\
+    and_gates c <= N.of_nat (reqs_cost rs).
+Proof. exact requests_build_structure. Qed.
+Print Assumptions C15_requests_build_structure.
